@@ -48,6 +48,12 @@ pub fn build(spec: &FontSpec) -> Vec<u8> {
     if let Some(f) = &spec.feat {
         tables.push((*b"feat", aat::feat(f)));
     }
+    if let Some(g) = &spec.glyf {
+        assert!(g.len() == n, "fontgen: glyf.len() {} != num_glyphs {}", g.len(), n);
+        let (glyf, loca) = glyf_loca(g);
+        tables.push((*b"glyf", glyf));
+        tables.push((*b"loca", loca));
+    }
     tables.sort_by(|a, b| a.0.cmp(&b.0));
 
     let num = tables.len();
@@ -76,6 +82,35 @@ pub fn build(spec: &FontSpec) -> Vec<u8> {
     font
 }
 
+/// 'glyf' with one rectangular contour per non-empty glyph and the long-format 'loca'.
+fn glyf_loca(boxes: &[Option<[i16; 4]>]) -> (Vec<u8>, Vec<u8>) {
+    let mut glyf = Obj::new();
+    let mut loca = Obj::new();
+    for b in boxes {
+        loca.u32(glyf.len() as u32);
+        if let Some([x0, y0, x1, y1]) = b {
+            glyf.i16(1).i16(*x0).i16(*y0).i16(*x1).i16(*y1);
+            glyf.u16(3); // endPtsOfContours
+            glyf.u16(0); // instructionLength
+            for _ in 0..4 {
+                glyf.u8(0x01); // on curve, 16-bit deltas
+            }
+            // points (x0,y0) (x1,y0) (x1,y1) (x0,y1) as deltas (wrapping: the box corners are i16)
+            for d in [*x0, x1.wrapping_sub(*x0), 0, x0.wrapping_sub(*x1)] {
+                glyf.i16(d);
+            }
+            for d in [*y0, 0, y1.wrapping_sub(*y0), 0] {
+                glyf.i16(d);
+            }
+            while glyf.len() % 4 != 0 {
+                glyf.u8(0);
+            }
+        }
+    }
+    loca.u32(glyf.len() as u32);
+    (glyf.data, loca.data)
+}
+
 fn head(spec: &FontSpec) -> Vec<u8> {
     let mut o = Obj::new();
     o.u32(0x0001_0000) // version
@@ -95,7 +130,7 @@ fn head(spec: &FontSpec) -> Vec<u8> {
         .u16(0) // macStyle
         .u16(8) // lowestRecPPEM
         .i16(2) // fontDirectionHint
-        .i16(0) // indexToLocFormat
+        .i16(if spec.glyf.is_some() { 1 } else { 0 }) // indexToLocFormat (long offsets with outlines)
         .i16(0); // glyphDataFormat
     debug_assert_eq!(o.len(), 54);
     o.data
